@@ -118,3 +118,18 @@ V('C01', 'revert-fix-reset-schema-formats-object', CG,
   "        self._write_keywords('RESET SCHEMA TO ')\n        self.visit(node.target)\n",
   "        self._write_keywords(f'RESET SCHEMA TO {node.target}')\n",
   'C01.R5', 'keyword-writer-gets-data')
+V('C01', 'revert-fix-alter-cast-fused', CG,
+  'edb.edgeql.codegen.EdgeQLSourceGenerator.visit_AlterCast',
+  "self._write_keywords(' FROM ')", "self._write_keywords('FROM ')",
+  'C01.R13', 'visit_AlterCast:separator-after-keywords')
+V('C01', 'revert-fix-index-match-fused', CG,
+  'edb.edgeql.codegen.EdgeQLSourceGenerator.visit_CreateIndexMatch',
+  "            self.write(' ')\n            self.visit(node.valid_type)",
+  "            self.visit(node.valid_type)",
+  'C01.R13', 'visit_CreateIndexMatch:separator-after-keywords')
+# negative control: the separator written through the keyword writer
+V('C01', 'nc-index-match-separator-as-keyword-space', CG,
+  'edb.edgeql.codegen.EdgeQLSourceGenerator.visit_DropIndexMatch',
+  "            self.write(' ')\n            self.visit(node.valid_type)",
+  "            self._write_keywords(' ')\n            self.visit(node.valid_type)",
+  None)
